@@ -32,6 +32,7 @@ func iterateMap(n datamodel.Node, bound int) (out []kv, errs []error, terminated
 	if it == nil {
 		return nil, []error{fmt.Errorf("nil MapIterator")}, true
 	}
+	var keptK, keptV []datamodel.Node
 	for steps := 0; !it.Done(); steps++ {
 		if steps >= bound {
 			return out, errs, false
@@ -52,6 +53,20 @@ func iterateMap(n datamodel.Node, bound int) (out []kv, errs []error, terminated
 			continue
 		}
 		out = append(out, kv{ks, l.String()})
+		keptK, keptV = append(keptK, k), append(keptV, v)
+	}
+	// the nodes an iterator yields are values: kept until the iteration is over
+	// they still say what they said when they were yielded
+	for i := range keptV {
+		ks, _ := keptK[i].AsString()
+		l, err := keptV[i].AsLink()
+		after := "error"
+		if err == nil {
+			after = l.String()
+		}
+		if ks != out[i].K || after != out[i].V {
+			out[i].V = fmt.Sprintf("ALIASED-ITERATOR-VALUE(yielded %s=%s, after the iteration the same nodes say %s=%s)", out[i].K, out[i].V, ks, after)
+		}
 	}
 	return out, errs, true
 }
